@@ -246,7 +246,10 @@ func (w *w3) differential(op simrt.Op) {
 					_, _ = applyOp(context.Background(), post, h)
 				}
 				_, _ = applyOp(context.Background(), post, o)
-				if isMutation(o.kind) && observeM(context.Background(), post, topics, groups, true) == es && !topicInModel(pre, o.topic) {
+				// (also: an offset for a partition the topic does not have yet, a group whose id the
+				// listings hide.) Whenever "applied" and "not applied" read back the same, the failed
+				// call's effect cannot be decided now and may surface later: the comparison ends.
+				if isMutation(o.kind) && observeM(context.Background(), post, topics, groups, true) == es {
 					w.sim.Probe("c17.ambiguous-stop")
 					return
 				}
